@@ -70,6 +70,16 @@ CLAIMED = {
         "Trusted: vverif/spec_source.py:Interp.extcall (from docs/interfaces.rst), bytecode denotation, z3. Dynamic return types and dynamic arguments are outside the reference semantics (covered relationally). The documented truncation behaviour of raw_call/create_* is not specified here.",
         "DESIGN.md 3/C12",
     ),
+    "C10": (
+        "proof",
+        "contract-based deductive verification: PyVC proof of SimpleAllocator.allocate_slot (all inputs), exhaustive decision table for layout overrides through the real front end (FinEx), and template contracts 'every write of a setter stays inside the reported range' on the real bytecode (z3, all calldata/state)",
+        "SimpleAllocator.allocate_slot for all cursor/size/limit values: returns the old cursor, advances by n, raises iff the range would reach max_slot, hence allocations are ordered and pairwise disjoint. "
+        "Layout overrides (37 cells: all permutations of a 4-variable layout, gaps up to 2**256-1, partial overlaps, same slot, missing entry, out of range, re-entrancy key missing/colliding, also across an initialised module): honoured exactly (reported layout == override) or rejected. "
+        "Layout templates (mixed types incl. structs, arrays, HashMap, DynArray, Bytes, transient, nested structs, lock) x pipelines x targets, for ALL calldata/state: each setter writes only slots inside its variable's reported range "
+        "(HashMap: keccak-derived slot) or the reported re-entrancy key; reported ranges are pairwise disjoint. Per-instance for the templates; OverridingStorageAllocator itself is only covered through the decision table.",
+        "Trusted: bytecode denotation, z3, the PyVC executor, ideal keccak (A4). Immutables (code layout) are covered under C13, not here.",
+        "DESIGN.md 3/C10",
+    ),
     "C07": (
         "proof",
         "contract-based deductive verification, template route: the real compiler's run-time bytecode for each contract shape and configuration is denoted for all calldata/values and the dispatch contract is discharged by z3; jump-table kernels by bounded run-time contract evaluation",
